@@ -53,6 +53,9 @@ class Machine(object):
         if stream not in self._preds:
             def eff(node, stream=stream):
                 if isinstance(node, ast.Call):
+                    if stream != 'self' and any(isinstance(a, ast.Name) and a.id == stream for a in node.args) \
+                            and (isinstance(node.func, ast.Name) or is_self_call(node)):
+                        return True      # a helper that is handed the stream: f(.., stream) / self.m(.., stream)
                     return isinstance(node.func, ast.Attribute) and isinstance(node.func.value, ast.Name) and node.func.value.id == stream \
                         and self.cls.find_method(node.func.attr) is not None and (stream != 'self' or node.func.attr.startswith(('append_', 'read_', 'align', 'skip_', 'peek_', 'clear_', 'set_')))
                 if isinstance(node, ast.Attribute):
@@ -111,7 +114,7 @@ class Machine(object):
         ps = sem.paths(f, positional=True, effects=self.pred(stream))
         if ps is None:
             raise Undecided('%s: too many paths' % method)
-        nparams = len(f.args.args) - 1
+        nparams = len(f.args.args) - (1 if f.args.args and f.args.args[0].arg in ('self', 'cls') else 0)
         if len(args) != nparams:
             raise Undecided('%s: arity' % method)
         undecided = None
@@ -136,6 +139,37 @@ class Machine(object):
                     sym, node, sx = ev_[1], ev_[2], ev_[3]
                     if isinstance(node, ast.Attribute):
                         val = len(b) if self.side == 'enc' else len(b) - q
+                    elif stream != 'self' and any(isinstance(a, ast.Name) and a.id == stream for a in node.args):
+                        # a helper handed the stream: evaluated in place on the same bit string
+                        if isinstance(node.func, ast.Name):
+                            g = module_funcs(f)(node.func.id)
+                            gconfig = {}
+                        else:
+                            owner = getattr(f, '_cls', None)
+                            r_ = owner.find_method(node.func.attr) if owner is not None else None
+                            g = r_[1] if r_ else None
+                            gconfig = config
+                        if g is None or node.keywords:
+                            raise Undecided('%s: helper %s taking the stream is not resolved' % (method, ast.unparse(node.func)))
+                        gparams = [a.arg for a in g.args.args]
+                        if gparams and gparams[0] in ('self', 'cls'):
+                            gparams = gparams[1:]
+                        if len(gparams) != len(node.args):
+                            raise Undecided('%s: arity of helper %s' % (method, g.name))
+                        gstream, cargs = None, []
+                        for pn, a0, a1 in zip(gparams, node.args, sx.args):
+                            if isinstance(a0, ast.Name) and a0.id == stream:
+                                gstream = pn
+                                cargs.append(None)
+                                continue
+                            try:
+                                cargs.append(evalexpr.ev(a1, env))
+                            except (evalexpr.Unsupported, KeyError, TypeError) as e:
+                                raise Undecided('%s: argument of %s not evaluable (%s)' % (method, g.name, e))
+                        if self.side == 'enc':
+                            b, val = self.run_fn(g, gstream, cargs, gconfig, b, 0, depth + 1)
+                        else:
+                            val, q = self.run_fn(g, gstream, cargs, gconfig, b, q, depth + 1)
                     else:
                         name = node.func.attr
                         try:
@@ -191,12 +225,12 @@ class Machine(object):
         if name == 'append_u8':
             return bits + format(a[0] & 0xff, '08b'), None
         if name == 'append_bytes':
-            if not isinstance(a[0], bytes):
+            if not isinstance(a[0], (bytes, bytearray)):
                 raise Undecided('append_bytes of a non-literal')
             return bits + ''.join(format(x, '08b') for x in a[0]), None
         if name == 'append_bits':
             data, n = a
-            if not isinstance(data, bytes):
+            if not isinstance(data, (bytes, bytearray)):
                 raise Undecided('append_bits of a non-literal')
             return bits + ''.join(format(x, '08b') for x in data)[:n], None
         if name in ('align', 'align_always'):
